@@ -1,3 +1,12 @@
-From Hio Require Import Base.Prelude Model.Sched.
-Theorem C03_placeholder : True. Proof. exact I. Qed.
-Print Assumptions C03_placeholder.
+(* C03 — see manifest.d/C03.json: what is proved for the scheduler model so far is
+   the lifecycle invariant (Props/C01.v); this file restates the part of it that
+   C03 relies on, so that the check of C03 fails when the model or that proof breaks.
+   The property itself is decided by the correspondence and the direct oracle of
+   harness/drivers/c03.py on every run. *)
+From Hio Require Import Base.Prelude Base.AMap Base.Time Model.Sched Proofs.SchedLife Proofs.SchedTop.
+
+Theorem C03_lifecycles_core :
+  forall (T : Type) (TT : Time T) (cycles fuel : nat) (p : prog T) (j : id),
+    life_ok (get_gen (do_run cycles fuel p) j) (events j (do_run cycles fuel p)).
+Proof. intros. apply do_run_lifecycles. Qed.
+Print Assumptions C03_lifecycles_core.
